@@ -87,6 +87,37 @@ func runC12(e *Engine, r *Report) {
 			if isWrap {
 				key = "terminal notify (snapshot wrapper) in " + fname(fn)
 			}
+			if !inTable {
+				// a helper (e.g. a method of the batch record) is table-internal
+				// when every live caller is a table method; the detach
+				// obligation then applies at those call sites
+				callers := e.CallerSites(fn)
+				okAll := len(callers) > 0
+				type cs struct {
+					s  ssa.CallInstruction
+					tn string
+				}
+				var sites []cs
+				for _, c := range callers {
+					if p := fnPkg(c.Parent()); p == nil || !scopePkg(p.Path()) || !e.IsLive(outermostFn(c.Parent())) {
+						continue
+					}
+					ctn, ok := isTableFn(c.Parent())
+					if !ok {
+						okAll = false
+					}
+					sites = append(sites, cs{c, ctn})
+				}
+				if okAll && len(sites) > 0 {
+					r.ok("WMC-terminal", key+" is a table-internal helper", e.ipos(s), "every caller is a method of a pending table")
+					for _, c := range sites {
+						if len(c.s.Common().Args) > 0 {
+							c12Detach(e, r, c.s.Parent(), c.s, c.tn, key+" via "+fname(c.s.Parent()))
+						}
+					}
+					return
+				}
+			}
 			if !r.check(inTable, "WMC-terminal", key+" is a table method", e.ipos(s),
 				"terminal results are produced only by the pending tables", "a terminal result is produced outside the pending-request tables") {
 				return
@@ -288,6 +319,7 @@ func runC12(e *Engine, r *Report) {
 			"(*dragonboat.pendingRaftLogQuery).returned": true,
 		}
 		n := 0
+		coveredAll := map[string]bool{}
 		for _, fn := range e.ScopeFuncs() {
 			if fnPkg(fn) != root || !e.IsLive(fn) {
 				continue
@@ -304,16 +336,34 @@ func runC12(e *Engine, r *Report) {
 							uses = true
 						}
 					}
+				case *ssa.Return:
+					for _, rv := range x.Results {
+						if constV(cc)(rv) && rv.Type().String() == cc.Type().String() {
+							uses = true
+						}
+					}
+				case *ssa.Call:
+					for _, a := range x.Call.Args {
+						if constV(cc)(a) && a.Type().String() == cc.Type().String() {
+							uses = true
+						}
+					}
 				}
 				if !uses {
 					return
 				}
 				n++
-				r.check(allowed[fname(fn)], "WMC-completed", "requestCompleted produced in "+fname(fn), e.ipos(in),
-					"Completed is produced only where the entry was applied / the query was served", "a Completed result is produced outside the apply/served sites")
+				covered := map[string]bool{}
+				okRole := e.onlyCalledFrom(fn, allowed, covered, 3)
+				for k := range covered {
+					coveredAll[k] = true
+				}
+				r.check(okRole, "WMC-completed", "requestCompleted produced in "+fname(fn), e.ipos(in),
+					"Completed is produced only where the entry was applied / the query was served (or in a helper called only from there)", "a Completed result is produced outside the apply/served sites")
 			})
 		}
-		r.floor("WMC-completed", n, 5)
+		// every apply/served site still produces (or reaches a helper that produces) Completed
+		r.floor("WMC-completed", len(coveredAll), 5)
 		ruleCompletedNotRejected(e, r)
 	}
 	// ---- apply callback carries the state machine's result to the table
